@@ -102,6 +102,46 @@ CLAIMED = {
         note='ERR values are qbee trap codes; resume semantics asserted '
              'for module-level statements only, as the property says.',
         design='DESIGN.md 4/C10'),
+    'C11': dict(
+        category='other',
+        text=('For each catalogue program compiled with -g at O0-O2: '
+              '(concrete structure) statement ranges lie on instruction '
+              'boundaries, are laminar, every instruction of a routine body '
+              'has an innermost statement whose line and source extract are '
+              'on that line of the input, routine records cover exactly '
+              'their code; (symbolic inputs, every path) find_stmt() at '
+              'every io instruction and at the trap address names the line '
+              'of the spec statement the reference interpreter is executing '
+              '(the pretty-printer line table is the independent oracle).'),
+        note='Literal-dependent instruction sizes only for the literals in '
+             'the catalogue programs.',
+        design='DESIGN.md 4/C11'),
+    'C12': dict(
+        category='other',
+        text=('The real qvm.dbg.Cmd driven through onecmd() on catalogue '
+              'programs with SYMBOLIC inputs (all branches the stepping '
+              'logic meets, for all input values); command histories '
+              'enumerated (all of length <= 2, sampled 3): transparency vs '
+              'the free run, progress of step/next, next never deeper, '
+              'repeated step visits the simple statements the reference '
+              'executes in order, break L + continue stops exactly where '
+              'and as often as prescribed, never after delbr.'),
+        note='Histories and breakpoint lines are enumerated, not symbolic.',
+        design='DESIGN.md 4/C12'),
+    'C13': dict(
+        category='other',
+        text=('At every PRINT <expr> reached by stepping (main, SUB, '
+              'FUNCTION, recursive frames; locals, by-ref parameters, '
+              'STATIC, SHARED, CONST, elements with symbolic index, record '
+              'and nested fields, operators) with SYMBOLIC variable values '
+              'the real debugger print gives the value the program then '
+              'prints (or both fail); VM state identical before/after; '
+              'unknown names, bad subscripts/fields and malformed '
+              'expressions give an error message, also after the program '
+              'has finished.'),
+        note='Expressions with function calls excluded (the debugger does '
+             'not call functions); floats concrete.',
+        design='DESIGN.md 4/C13'),
     'C07': dict(
         category='other',
         text=('For each BASIC template feeding a builtin / operator / '
